@@ -43,6 +43,8 @@ JudgeLine ==
     ELSE IF UniqueBest(w) /\ Tr.dshift_cmp > TOL THEN 4
     ELSE IF \E k \in KS : Odd(k) /\ Tr.lce[k + 1] # Tr.lce_s[k + 1] THEN 5
     ELSE IF \E k \in 1..(2 * D) : (Tr.lce[k + 1] /\ ~Tr.lce[k]) \/ (Tr.lce_s[k + 1] /\ ~Tr.lce_s[k]) THEN 6
+    \* ... also below 0 ("all thresholds"): lce_neg = the answers for the thresholds -1 and -0.001, which lie below threshold 0
+    ELSE IF \E j \in 1..Len(Tr.lce_neg) : (Tr.lce[1] /\ ~Tr.lce_neg[j]) \/ (Tr.lce_s[1] /\ ~Tr.lce_neg_s[j]) THEN 6
     ELSE IF OneHot(w) /\ (Tr.one_cmp > TOL \/ \E k \in 0..(2 * D - 1) : ~Tr.lce[k + 1]) THEN 7
     ELSE IF OneHotForOf(w, labels, al) /\ Tr.one > TOL THEN 7
     ELSE IF ~Strict THEN 0
